@@ -79,9 +79,10 @@ class NarwhalsMaterializer(FormulaMaterializer):
         if drop_rows:
             values = drop_nulls(values, indices=drop_rows)
         if spec.output == "sparse":
-            return spsparse.csc_matrix(
-                numpy.array(getattr(values, "__wrapped__", values)).reshape((-1, 1))
-            )
+            array = numpy.array(getattr(values, "__wrapped__", values)).reshape((-1, 1))
+            if array.dtype == numpy.float16:  # (not supported by scipy.sparse)
+                array = array.astype(numpy.float32)
+            return spsparse.csc_matrix(array)
         return values
 
     @override
